@@ -755,3 +755,48 @@ def gen_EV(seed, profile):
 GENERATORS["C07"] = lambda seed: gen_EV(seed, "C07")
 GENERATORS["C08"] = lambda seed: gen_EV(seed, "C08")
 GENERATORS["C09"] = lambda seed: gen_EV(seed, "C09")
+
+
+def gen_C04(seed):
+    r = sub(seed, "ops")
+    x = r.random()
+    if x < 0.6:
+        fams = r.choice([["explicit_fixed"], ["splitting"], ["implicit_fixed"], ["explicit_fixed", "splitting", "implicit_fixed"]])
+    else:
+        fams = ["explicit_adaptive", "explicit_adaptive", "implicit_adaptive", "richardson"]      # only the shift / reflection relation applies
+    fam_choice = r.choice(["linear", "osc", "duffing", "logistic", "pendulum", "smoothnet"])
+    scn, direction = base_scenario(seed, "C04", fams, family=None if "splitting" in fams else fam_choice, max_steps=24,
+                                   dtype=r.choice(["float64"] * 8 + ["float32", "longdouble"]))
+    prob = scn["problem"]
+    if prob["family"] == "smoothnet":
+        prob["params"]["v"] = [0.0 for _ in prob["params"]["v"]]           # autonomous
+    if prob["family"] == "cosdecay":
+        scn["problem"] = gen_problem(sub(seed, "problem2"), family="logistic", dtype=prob["dtype"])
+    s = scn["system"]
+    L = abs(s["tf"] - s["t0"])
+    if abs(s["dt"]) > L:
+        s["dt"] = L / 4
+    s["dense"] = False
+    nops = r.choice([1, 1, 2, 3])
+    ops = []
+    cur = s["t0"]
+    for j in range(nops):
+        op = {"op": "integrate"}
+        if j < nops - 1:
+            op["t"] = round(cur + (s["tf"] - cur) * r.uniform(0.3, 0.8), 6)
+            cur = op["t"]
+        ops.append(op)
+    scn["ops"] = ops
+    scn["knobs"].pop("alloc_cap", None)
+    rf = sub(seed, "faults")
+    if is_implicit(s["method"]) and rf.random() < 0.5:
+        for _ in range(rf.choice([1, 2])):
+            scn["faults"].append({"op": rf.randrange(len(ops)), "seam": "solver", "at": rf.randrange(1, 10), "kind": rf.choice(["nonconv", "nonconv", "linalg"])})
+        if rf.random() < 0.4:
+            scn["knobs"]["newton_cap"] = rf.choice([1, 2, 4])
+    scn["twin"] = r.choice(["shift", "shift", "reflect", "none"])
+    scn["shift"] = r.choice([1, -1]) * 2.0 ** r.randint(-2, 7)
+    return scn
+
+
+GENERATORS["C04"] = gen_C04
